@@ -3,12 +3,20 @@ package gedcom
 import (
 	"fmt"
 	"strings"
+	"sync"
 	"time"
 )
 
 // IndividualNode represents a person.
 type IndividualNode struct {
 	*simpleDocumentNode
+
+	// cacheMutex guards all of the fields below. The same individual is read by
+	// several goroutines when individuals are compared or pages are rendered
+	// with more than one job. Families and Spouses go through the document and
+	// the families, so they only hold it to look at and to fill in what is
+	// remembered, never while working the relations out.
+	cacheMutex                    sync.Mutex
 	cachedFamilies, cachedSpouses bool
 	families                      FamilyNodes
 	spouses                       []*IndividualNode
@@ -31,8 +39,7 @@ type SpouseChildren map[*IndividualNode]ChildNodes
 
 func newIndividualNode(document *Document, pointer string, children ...Node) *IndividualNode {
 	return &IndividualNode{
-		newSimpleDocumentNode(document, TagIndividual, "", pointer, children...),
-		false, false, nil, nil, nil, 0, 0,
+		simpleDocumentNode: newSimpleDocumentNode(document, TagIndividual, "", pointer, children...),
 	}
 }
 
@@ -86,11 +93,18 @@ func (node *IndividualNode) Spouses() (spouses IndividualNodes) {
 		return nil
 	}
 
-	if node.cachedSpouses && node.spousesVersion == node.document.familyLinksVersion {
-		return node.spouses
+	node.cacheMutex.Lock()
+	cached, version, remembered := node.cachedSpouses, node.spousesVersion, node.spouses
+	node.cacheMutex.Unlock()
+
+	if cached && version == node.document.familyLinksVersion {
+		return remembered
 	}
 
 	defer func() {
+		node.cacheMutex.Lock()
+		defer node.cacheMutex.Unlock()
+
 		node.spouses = spouses
 		node.cachedSpouses = true
 		node.spousesVersion = node.document.familyLinksVersion
@@ -128,11 +142,18 @@ func (node *IndividualNode) Families() (families FamilyNodes) {
 		return nil
 	}
 
-	if node.cachedFamilies && node.familiesVersion == node.document.familyLinksVersion {
-		return node.families
+	node.cacheMutex.Lock()
+	cached, version, remembered := node.cachedFamilies, node.familiesVersion, node.families
+	node.cacheMutex.Unlock()
+
+	if cached && version == node.document.familyLinksVersion {
+		return remembered
 	}
 
 	defer func() {
+		node.cacheMutex.Lock()
+		defer node.cacheMutex.Unlock()
+
 		node.families = families
 		node.cachedFamilies = true
 		node.familiesVersion = node.document.familyLinksVersion
@@ -860,6 +881,11 @@ func (node *IndividualNode) UniqueIDs() (nodes []*UniqueIDNode) {
 // commonly unique identifiers such as the FamilySearch ID or UUID generated by
 // some applications.
 func (node *IndividualNode) UniqueIdentifiers() *StringSet {
+	// Only the children of this individual are looked at while the lock is
+	// held. The set is complete before another goroutine can see it.
+	node.cacheMutex.Lock()
+	defer node.cacheMutex.Unlock()
+
 	if node.cachedUniqueIDs == nil {
 		node.cachedUniqueIDs = NewStringSet()
 
@@ -882,27 +908,35 @@ func (node *IndividualNode) UniqueIdentifiers() *StringSet {
 // about them is forgotten.
 func (node *IndividualNode) AddNode(n Node) {
 	node.SimpleNode.AddNode(n)
+	node.cacheMutex.Lock()
 	node.cachedUniqueIDs = nil
+	node.cacheMutex.Unlock()
 }
 
 func (node *IndividualNode) DeleteNode(n Node) (didDelete bool) {
 	didDelete = node.SimpleNode.DeleteNode(n)
+	node.cacheMutex.Lock()
 	node.cachedUniqueIDs = nil
+	node.cacheMutex.Unlock()
 
 	return
 }
 
 func (node *IndividualNode) SetNodes(nodes Nodes) {
 	node.SimpleNode.SetNodes(nodes)
+	node.cacheMutex.Lock()
 	node.cachedUniqueIDs = nil
+	node.cacheMutex.Unlock()
 }
 
 func (node *IndividualNode) resetCache() {
+	node.cacheMutex.Lock()
 	node.cachedFamilies = false
 	node.cachedSpouses = false
 	node.families = nil
 	node.spouses = nil
 	node.cachedUniqueIDs = nil
+	node.cacheMutex.Unlock()
 }
 
 func (node *IndividualNode) AddName(name string) *IndividualNode {
